@@ -131,7 +131,9 @@ func runPrefixEnumeration(c *core.Ctx, base int64, maxP, maxC int) {
 			continue
 		}
 		p := p
-		c.Begin(idx, func() string { return fmt.Sprintf("prefix %q x every continuation of at most %d code points over Alphabet41", p, maxC) })
+		c.Begin(idx, func() string {
+			return fmt.Sprintf("prefix %q x every continuation of at most %d code points over Alphabet41", p, maxC)
+		})
 		st := preparePrefix(c, p)
 		if !st.ok {
 			continue
@@ -168,6 +170,28 @@ func runPrefixSampled(c *core.Ctx, base int64, n int) {
 		conts := make([]string, k)
 		for j := range conts {
 			conts[j] = gen.String(r, 5)
+		}
+		if r.Chance(1, 6) {
+			// a long prefix that ends in a long run of combining marks (of several combining classes), continued
+			// by more marks: an analysis that looks only at a bounded tail of the prefix sees no boundary at all
+			marks := []rune{0x0301, 0x0323, 0x0327, 0x0338, 0x0308, 0x031B}
+			b := []rune(gen.String(r, 6))
+			for n := r.Intn(60); n > 0; n-- {
+				b = append(b, rune('a'+r.Intn(26)))
+			}
+			b = append(b, []rune{'x', 'e', '=', 0x1100, 'o'}[r.Intn(5)])
+			for n := 1 + r.Intn(45); n > 0; n-- {
+				b = append(b, marks[r.Intn(len(marks))])
+			}
+			p = string(b)
+			for j := range conts {
+				cb := []rune{marks[r.Intn(len(marks))]}
+				for n := r.Intn(4); n > 0; n-- {
+					cb = append(cb, marks[r.Intn(len(marks))])
+				}
+				conts[j] = string(cb) + gen.String(r, 3)
+			}
+			c.Count("prefix:sampled-long-mark-runs")
 		}
 		c.Begin(idx, func() string { return fmt.Sprintf("prefix %q x continuations %q", p, conts) })
 		st := preparePrefix(c, p)
